@@ -1,0 +1,20 @@
+//go:build verif
+
+package evm
+
+import (
+	"github.com/ethereum/go-ethereum/core"
+	"github.com/rigochain/rigo-go/types"
+	"github.com/rigochain/rigo-go/types/xerrors"
+)
+
+// VerifCallVM exposes callVM (the body of the vm_call query, which itself needs a running
+// Tendermint RPC environment for the block time) to the external verification harness.
+func (ctrler *EVMCtrler) VerifCallVM(from, to types.Address, data []byte, height, blockTime int64) (*core.ExecutionResult, xerrors.XError) {
+	return ctrler.callVM(from, to, data, height, blockTime)
+}
+
+// VerifLastRoot returns the EVM state root and height the controller will build the next block on.
+func (ctrler *EVMCtrler) VerifLastRoot() ([]byte, int64) {
+	return append([]byte(nil), ctrler.lastRootHash...), ctrler.lastBlockHeight
+}
